@@ -278,9 +278,12 @@ theorem mem_zip_self {β : Type} : ∀ (L : List β) (x y : β), (x, y) ∈ L.zi
 theorem newVerts_edges (r : ℝ) (W : List (P2 ℝ)) (h2 : 2 ≤ W.length) (A B : P2 ℝ)
     (h : (A, B) ∈ Spec.edgesOf ((corners r W).map (·.newVert))) :
     ∃ a p q d, A = (corner r a p q).newVert ∧ B = (corner r p q d).newVert ∧
-      (a, p) ∈ Spec.edgesOf W ∧ (p, q) ∈ Spec.edgesOf W ∧ (q, d) ∈ Spec.edgesOf W := by
+      (a, p) ∈ Spec.edgesOf W ∧ (p, q) ∈ Spec.edgesOf W ∧ (q, d) ∈ Spec.edgesOf W ∧
+      corner r a p q ∈ corners r W ∧ corner r p q d ∈ corners r W := by
   rw [edgesOf_eq_zip_rotate, ← List.map_rotate, List.zip_map, List.mem_map] at h
   obtain ⟨⟨k, k'⟩, hkk, hAB⟩ := h
+  have hk1 : k ∈ corners r W := (List.of_mem_zip hkk).1
+  have hk2 : k' ∈ corners r W := List.mem_rotate.mp (List.of_mem_zip hkk).2
   have hA : A = k.newVert := (congrArg Prod.fst hAB).symm
   have hB : B = k'.newVert := (congrArg Prod.snd hAB).symm
   have hr1 : rollR1 W = W.rotate (W.length - 1) := by
@@ -296,7 +299,7 @@ theorem newVerts_edges (r : ℝ) (W : List (P2 ℝ)) (h2 : 2 ≤ W.length) (A B 
   have e1 : b = a' := mem_zip_self W b a' m3
   have e2 : c = b' := mem_zip_self _ c b' m4
   subst e1; subst e2
-  refine ⟨a, b, c, c', hA, hB, ?_, ?_, ?_⟩
+  refine ⟨a, b, c, c', hA, hB, ?_, ?_, ?_, hk1, hk2⟩
   · have hE : Spec.edgesOf (W.rotate (W.length - 1)) = (W.rotate (W.length - 1)).zip W := by
       rw [edgesOf_eq_zip_rotate, hback]
     rw [← hE] at m1
@@ -327,7 +330,7 @@ theorem offset_edge_distance (V : List (P2 ℝ)) (c : P2 ℝ) (r : ℝ) (h3 : 3 
   have hW : spgVerts false V c = V.map (· - c) := by simp [spgVerts]
   unfold spgNewVerts at hAB
   rw [hW] at hAB
-  obtain ⟨a, p, q, d, hA, hB, e1, e2, e3⟩ := newVerts_edges r _ (by simp; omega) A B hAB
+  obtain ⟨a, p, q, d, hA, hB, e1, e2, e3, _, _⟩ := newVerts_edges r _ (by simp; omega) A B hAB
   obtain ⟨c1, c2, t1, _⟩ := convex_corner_of_edges V c hconv hin a p q e1 e2
   obtain ⟨_, c3, t2, _⟩ := convex_corner_of_edges V c hconv hin p q d e2 e3
   obtain ⟨_, hA2, _⟩ := corner_newVert_on_lines r a p q c1 c2 t1
